@@ -953,6 +953,42 @@ def df_import(inp, W):
     return {"out": di.DataFrame.from_arrow(pa.table(arrays, names=[c[0] for c in cols]))}
 
 @op
+def df_export(inp, W):
+    """what DataFrame.to_pandas / to_arrow hand over to the foreign library (pandas.DataFrame / pyarrow.array + table are
+    replaced by recorders in BOTH worlds: the libraries themselves are C code; their side is observed in df_foreign_roundtrip)"""
+    import sys, types
+    data = inp["data"]
+    got = {}
+    if inp["kind"] == "pandas":
+        pd = types.ModuleType("pandas")
+        def DataFrame(arg=None, *a, **k):
+            got["names"] = list(arg.keys()); got["cols"] = [list(v) if isinstance(v, list) else ["<not a list>", type(v).__name__] for v in arg.values()]
+            got["extra_args"] = len(a) + len(k)
+            return "the-frame"
+        pd.DataFrame = DataFrame
+        mods = {"pandas": pd}
+    else:
+        pa = types.ModuleType("pyarrow")
+        pa.array = lambda values, *a, **k: ("array", list(values) if isinstance(values, list) else ["<not a list>", type(values).__name__], len(a) + len(k))
+        def table(arrays, names=None, *a, **k):
+            got["names"] = list(names) if names is not None else None
+            got["cols"] = [x[1] if isinstance(x, tuple) and x and x[0] == "array" else ["<not a pyarrow array>"] for x in arrays]
+            got["extra_args"] = len(a) + len(k) + sum(x[2] for x in arrays if isinstance(x, tuple) and len(x) == 3)
+            return "the-table"
+        pa.table = table
+        mods = {"pyarrow": pa}
+    old = {k: sys.modules.get(k) for k in mods}
+    sys.modules.update(mods)
+    try:
+        ret = data.to_pandas() if inp["kind"] == "pandas" else data.to_arrow()
+    finally:
+        for k, v in old.items():
+            if v is None: sys.modules.pop(k, None)
+            else: sys.modules[k] = v
+    return {"returned_library_object": ret in ("the-frame", "the-table"), "names": got.get("names"), "cols": got.get("cols"),
+            "extra_args": got.get("extra_args"), "recv": data}
+
+@op
 def df_foreign_roundtrip(inp, W):
     """observed on the real build only: to_pandas/to_arrow and back (pandas / pyarrow themselves are C code)"""
     di = W.di
